@@ -44,6 +44,7 @@ def bounds(chk, fl, qual, args, rule):
 
 def run(chk):
     idx = chk.idx
+    R.rule_ctor_signature(chk, "C11.R3")  # (random_order reaches the tests only if it is bound to what the caller meant)
     R.rule_stateless(chk, "C11.R6")  # first: its refutations stand even if a later rule cannot read the code
     reg = nnm.registry(idx)
     fl = nnm.flow(idx, reg)
@@ -68,8 +69,8 @@ def run(chk):
         if not (isinstance(ret, Tup) and len(ret.items) == 2) or ret.items[1] is TOP:
             raise AnalysisError(f"{name}: cannot determine the shape of the history")
         h = ret.items[1]
-        chk.ob("C11.R2", R.W(name), "one-entry-per-observation", isinstance(h, Arr) and h.dlen == 0,
-               "the returned history has exactly len(x) entries", node=fr.fdef, abstract=str(h))
+        chk.ob("C11.R2", R.W(name), "one-entry-per-observation", isinstance(h, Arr) and h.dlen == 0 and h.minn <= 1,
+               "the returned history has exactly len(x) entries, for every sample of length >= 1", node=fr.fdef, abstract=str(h))
         bounds(chk, fl, f"{nnm.CLS}.{name}", {"x": X}, "C11.R2")
     nb = 0
     for name in reg["estim"] + reg["bet"]:
@@ -77,8 +78,8 @@ def run(chk):
         fr = fl.analyse(f"{nnm.CLS}.{name}", {"x": X})
         r = fr.ret
         if isinstance(r, Arr):
-            chk.ob("C11.R2", R.W(name), "one-entry-per-observation", r.dlen == 0,
-                   "the tuning sequence has exactly len(x) entries (so the factor array has one entry per observation)",
+            chk.ob("C11.R2", R.W(name), "one-entry-per-observation", r.dlen == 0 and r.minn <= 1,
+                   "the tuning sequence has exactly len(x) entries for every sample of length >= 1 (so the factor array has one entry per observation)",
                    node=fr.fdef, abstract=str(r))
     bounds(chk, fl, f"{nnm.CLS}.sjm", {"N": CONST, "t": CONST, "x": X}, "C11.R2")
     bounds(chk, fl, "welford_mean_var", {"x": X}, "C11.R2")
